@@ -314,10 +314,12 @@ def run_phase(ctx, ph):
         tr2 = os.path.join(work, f"trace_{name}_recheck.ndjson")
         drive(ctx.binp, work, d["driver"], sub_path, tr2, seed, tier, extra=extra)
         bads2 = validate(ctx, name + "_recheck", v, tr2, count=False)
-        k1 = {(b["id"], b.get("variant"), dev_key(b)) for b in bads}
-        k2 = {(b["id"], b.get("variant"), dev_key(b)) for b in bads2}
-        if k1 != k2:
-            raise Infra(f"{name}: deviations did not reproduce on re-execution ({len(k1 - k2)} vanished, {len(k2 - k1)} new): harness is not deterministic")
+        # the code under test may itself be non-deterministic (map iteration order, scheduling), so individual cases may
+        # differ between executions; but every KIND of deviation must show up again, otherwise it was a fluke of the harness
+        k1 = {dev_key(b) for b in bads}
+        k2 = {dev_key(b) for b in bads2}
+        if not k1 <= k2:
+            raise Infra(f"{name}: deviation kind(s) {sorted(k1 - k2)} did not reproduce on re-execution: not reported (flaky)")
     lines_by_id = {}
     if bads:
         want = {b["id"] for b in bads}
